@@ -18,6 +18,36 @@ CHECKS = {
     ),
 }
 
+CHECKS.update({
+    "C04": dict(
+        text="Every program of a tree-exhaustive pool (<= N body nodes over 10 leaf statements, 5 macros covering parameters "
+             "used as qubit / number / index / loop count / register / shadowing header names / passed on) and of the <= k-deviation "
+             "neighbourhoods of a feature-rich base program is expanded by the real pass; the meaning read off the resulting IR "
+             "(both readings of a macro call) must equal the reference interpreter's call-by-substitution denotation; header data, "
+             "definitions (preserve flag), legality of the generated text and the parser's expand_macro flag are checked too.",
+        note="anonymous gates; node bound 3-5 and deviation bound 2 (quick) / 3 (thorough); the reference interpreter (mc/ref/meaning.py) "
+             "and the IR reader (mc/ref/abstraction.py, public attributes only) are the trusted base",
+        technique="bounded-exhaustive program enumeration; real pass vs reference interpreter (denotation equality)",
+        ref="5/C04",
+    ),
+    "C15": dict(
+        text="Product-exhaustive: every register size 1-4 (5), every outcome, every H-subset preparation, every hardware output list up to "
+             "length 2 (3) as int and as string, and every small perturbation of probability vectors pushed through a one-line backend; "
+             "all views (by_int, by_str, readout as_int/as_str, relative frequencies) compared with an independent little-endian oracle.",
+        note="register size <= 4 (quick) / 5 (thorough); perturbations below CUTOFF_FAIL; numpy seeded",
+        technique="product-exhaustive enumeration of outcomes/views on the real result classes against an independent bit-order oracle",
+        ref="5/C15",
+    ),
+    "C18": dict(
+        text="Product-exhaustive over gate signatures (5 kinds, arity 0-2 (3)), 14 argument values in every position, argument lists of "
+             "arity-1..arity+1, positional / keyword / mixed / unknown / missing keyword forms; every ordered non-empty subset of a gate pool "
+             "through add_idle_gates and stretched_gates; idle gates emulated in every position, stretched unitaries compared with the parent's.",
+        note="value alphabet excludes bool/NaN/inf; an untyped name fits every kind; mixed positional+keyword may be rejected",
+        technique="product-exhaustive enumeration of signatures x argument lists on the real gate-definition code against a kind-rule oracle",
+        ref="5/C18",
+    ),
+})
+
 NOT_YET = {}
 
 
